@@ -162,6 +162,17 @@ func (w *UDP) Stop() {
 	vrt.Join(w.extraTh...)
 }
 
+// StopListener closes only listener i (0: the first one) and waits for its Handle loop.
+func (w *UDP) StopListener(i int) {
+	if i == 0 {
+		w.PC.Close()
+		vrt.Join(w.handle)
+		return
+	}
+	w.extraPC[i-1].Close()
+	vrt.Join(w.extraTh[i-1])
+}
+
 func (w *UDP) addr() string {
 	if w.Addr != "" {
 		return w.Addr
